@@ -50,7 +50,7 @@ def _zero_compare(test: ast.AST) -> Optional[Tuple[ast.AST, str]]:
 
 
 class ZeroIsValue:
-    def __init__(self, ctx, fn: Func, source: Callable[[ast.AST], bool], opt_params: Set[str] = frozenset(), label: str = "Z"):
+    def __init__(self, ctx, fn: Func, source: Callable[[ast.AST], bool], opt_params: Set[str] = frozenset(), label: str = "Z", coll_params: Set[str] = frozenset()):
         self.ctx, self.fn, self.label = ctx, fn, label
         self.cfg = ctx.cfg(fn)
         self.rd = ctx.rd(fn)
@@ -77,8 +77,43 @@ class ZeroIsValue:
                 return (set(labels) - {L}) | {LS}
             return labels
 
-        self.taint = Taint(self.rd, src_fn, cleanse=cleanse, param_labels=lambda nm: {L} if nm in opt_params else set())
+        self.taint = Taint(self.rd, src_fn, cleanse=cleanse, param_labels=lambda nm: {L} if nm in opt_params else ({LS} if nm in coll_params else set()))
+        self._source = source
         self.n_sources = 0
+
+    def callee_conflations(self, depth: int = 1) -> Iterator[Tuple[ast.AST, str, str]]:
+        """labelled values handed to a repository helper: the helper is examined with the receiving parameters labelled
+        (a *varargs parameter receives a collection of labelled values)"""
+        if depth <= 0:
+            return
+        L = self.label
+        for n in self.cfg.nodes:
+            if n.ast is None or n.kind not in ("stmt", "cond"):
+                continue
+            for c in [x for x in walk_no_defs(n.ast) if isinstance(x, ast.Call)]:
+                cal = self.ctx.prog.callee(self.fn, c)
+                if cal is None or cal[0] != "func" or cal[1] not in self.ctx.prog.funcs or cal[1] == self.fn.qual:
+                    continue
+                callee = self.ctx.prog.funcs[cal[1]]
+                a = callee.node.args
+                pos = [x.arg for x in a.posonlyargs + a.args]
+                if callee.cls is not None and pos and pos[0] in ("self", "cls"):
+                    pos = pos[1:]
+                opt, coll = set(), set()
+                for i, arg in enumerate(c.args):
+                    if L in self.taint.of(arg, n):
+                        if i < len(pos):
+                            opt.add(pos[i])
+                        elif a.vararg is not None:
+                            coll.add(a.vararg.arg)
+                for kw in c.keywords:
+                    if kw.arg and L in self.taint.of(kw.value, n):
+                        opt.add(kw.arg)
+                if not opt and not coll:
+                    continue
+                sub = ZeroIsValue(self.ctx, callee, self._source, opt_params=opt, label=self.label, coll_params=coll)
+                for e, t, k in sub.conflations():
+                    yield c, f"{callee.name}: {t}", k + f" inside {callee.name}"
 
     def conflations(self, positivity: bool = True) -> Iterator[Tuple[ast.AST, str, str]]:
         """(expression, enclosing test text, kind) for every truthiness / positivity test of a labelled value"""
@@ -110,6 +145,19 @@ class ZeroIsValue:
                                     b[nm.id] = frozenset(lab)
                             for cond in g.ifs:
                                 tests.append((cond, dict(b)))
+            # loop variables over a collection of labelled values are labelled values
+            loopb: Dict[str, frozenset] = {}
+            cur = getattr(n, "stmt", None)
+            pm = self.ctx.prog.parents(self.fn.node)
+            anc = n.ast
+            while anc is not None and id(anc) in pm:
+                anc = pm[id(anc)]
+                if isinstance(anc, (ast.For, ast.AsyncFor)) and isinstance(anc.target, ast.Name):
+                    hn = self.cfg.nodes_of(anc)
+                    lab = set(t.of(anc.iter, hn[0] if hn else n))
+                    if LS in lab or L in lab:
+                        loopb[anc.target.id] = frozenset({L})
+            tests = [(tt, {**loopb, **bb}) for tt, bb in tests]
             for test, b in tests:
                 for op in truthy_operands(test):
                     if L in t.of(op, n, b):
